@@ -50,7 +50,48 @@ def env_normalised(F):
     return Result("holds", "3 comparisons, all on trim().to_ascii_lowercase()", queries=r.queries, seconds=r.seconds, sample={"fn": fc.name, "kind": "PROVENANCE", "comparisons": [o[:120] for _i, o in cmps]})
 
 
+def hosts_examined(F):
+    """Which host does each is_loopback_host decision in validate look at?  Block order: pilot TLS rule, production gRPC
+    rule, production HTTP rule.  The first two must examine `server.host` itself, the third the HTTP host (explicit
+    `http_host` falling back to `server.host`)."""
+    from vlib.mirflow import origin as _o
+    import re as _re
+    fc = FnCheck(F, V)
+    if fc.fn is None:
+        return fc.missing()
+    hi = field_index("config.rs", "ServerConfig", "host")
+    hh = field_index("config.rs", "ServerConfig", "http_host")
+    if hi is None or hh is None:
+        return Result("inconclusive", "ServerConfig.host / http_host not found in config.rs")
+    sw = []
+    for idx in sorted(fc.fn.blocks):
+        b = fc.fn.blocks[idx]
+        if b.cleanup or b.kind != "switch":
+            continue
+        o = _o(fc.fn, b.switch_local)
+        if "is_loopback_host(" in o:
+            sw.append((idx, o))
+    if len(sw) != 3:
+        return Result("inconclusive", "expected 3 is_loopback_host decisions in validate, found %d" % len(sw))
+    grpc = r"call (config::)?is_loopback_host\(deref\(&\(\(\(\*\{arg\(_1: &KyroDbConfig\)\}\)\.\d+: config::ServerConfig\)\.%d: String\)\)\)" % hi
+    r = fc.reachable(OK)
+    smp = {"fn": fc.name, "kind": "PROVENANCE", "decisions": [o[:160] for _i, o in sw], "ServerConfig.host": hi, "ServerConfig.http_host": hh}
+    names = ("pilot TLS rule", "production gRPC rule")
+    for k in (0, 1):
+        if not _re.search(grpc, sw[k][1]):
+            return Result("violated", "%s (bb%d) decides on `%s`, not on the gRPC bind host server.host: a configuration whose gRPC host is exposed is judged by another address" % (names[k], sw[k][0], sw[k][1][:160]),
+                          queries=r.queries, seconds=r.seconds, sample=smp)
+    # HTTP rule: the argument flows from Option::unwrap_or over server.http_host with server.host as the default, or from the accessor
+    o3 = sw[2][1]
+    ok3 = bool(_re.search(r"is_loopback_host\(call (Option::<&str>::unwrap_or|(config::)?KyroDbConfig::http_host)", o3))
+    if not ok3:
+        return Result("violated", "production HTTP rule (bb%d) decides on `%s`, not on the HTTP host (http_host or, if unset, server.host)" % (sw[2][0], o3[:160]), queries=r.queries, seconds=r.seconds, sample=smp)
+    return Result("holds", "pilot and production gRPC rules examine server.host; production HTTP rule examines the HTTP host", queries=r.queries, seconds=r.seconds, sample=smp)
+
+
 MOS = [
+    MO("O18.3/hosts", "validate: the pilot TLS rule and the production gRPC rule decide on the gRPC bind host (server.host); the production HTTP rule decides on the HTTP host (MIR def-use provenance; reachability by z3)",
+       hosts_examined, functions=[("config.rs", "validate")]),
     MO("O18.3/normalised", "validate: the environment name is trimmed and lower-cased once and every branch decision (benchmark / pilot / production) is taken on that normalised value", env_normalised,
        functions=[("config.rs", "validate")]),
     MO("O18.3/durability", "validate: outside benchmark, Ok is reachable only with cache strategy Learned, fsync policy != None, snapshot interval != 0, recovery mode Strict",
@@ -65,12 +106,12 @@ MOS = [
              never(V, OK, assume=[PILOT, Arm(r"^ensure_not\(call <ObservabilityAuthMode as PartialEq>::ne\)$", {"otherwise"}, name="observability_auth == Disabled", nth=0)]),
              never(V, OK, assume=[PILOT, Arm(r"^ensure_not\(not\(" + FLD(r"\d+: config::PersistenceConfig\)\.\d+: bool\)\)\)$"), {"otherwise"}, name="allow_fresh_start_on_recovery_failure == true")]),
              never(V, OK, assume=[PILOT, Arm(r"^\(" + FLD(r"\d+: config::ServerConfig\)\.\d+: config::TlsConfig\)\.0: bool\)$"), {"0"}, name="tls.enabled == false", nth=0),
-                                  Arm(r"^ensure_not\(alt\(call (config::)?is_loopback_host \| const true\)\)$", {"otherwise"}, name="host is not loopback")])),
+                                  Arm(r"^ensure_not\(alt\(call (config::)?is_loopback_host\(.*\) \| const true\)\)$", {"otherwise"}, name="host is not loopback")])),
        functions=[("config.rs", "validate")]),
     MO("O18.3/production", "validate: in production a non-loopback gRPC bind requires auth; a non-loopback HTTP bind requires protected observability",
-       allof(never(V, OK, assume=[PROD, Arm(r"^call (config::)?is_loopback_host$", {"0"}, name="gRPC host not loopback", nth=0),
+       allof(never(V, OK, assume=[PROD, Arm(r"^call (config::)?is_loopback_host\(", {"0"}, name="gRPC host not loopback", nth=0),
                                   Arm(r"^ensure_not\(" + FLD(r"\d+: config::AuthConfig\)\.0: bool\)\)$"), {"otherwise"}, name="auth.enabled == false", nth=1)]),
-             never(V, OK, assume=[PROD, Arm(r"^call (config::)?is_loopback_host$", {"0"}, name="HTTP host not loopback", nth=1),
+             never(V, OK, assume=[PROD, Arm(r"^call (config::)?is_loopback_host\(", {"0"}, name="HTTP host not loopback", nth=1),
                                   Arm(r"^ensure_not\(call <ObservabilityAuthMode as PartialEq>::ne\)$", {"otherwise"}, name="observability_auth == Disabled", nth=1)])),
        functions=[("config.rs", "validate")]),
     MO("O18.3/loopback", "is_loopback_host: true only for ::1, localhost or a 127. prefix of the trimmed, unbracketed, zone-stripped, lower-cased host; empty is false",
